@@ -100,11 +100,23 @@ def _k(rng, order):
     return rng.randint(1, 4096)
 
 
+def _as_int(st):
+    """A returned state as a Python int (the library hands back a one-element array if it was given one)."""
+    if isinstance(st, np.ndarray):
+        if st.size != 1:
+            raise TypeError(f"state array of size {st.size}")
+        return int(st.ravel()[0])
+    return int(st)
+
+
 def _open(rng):
     order = rng.choice(ORDERS)
     s = _seed_value(rng, order)
+    np_ok = s is not None and abs(s) < 2 ** 62
     return {"op": "open", "order": order, "seed": s,
-            "np": (s is not None and abs(s) < 2 ** 62 and rng.random() < 0.2)}
+            "np": (np_ok and rng.random() < 0.2),
+            # the seed / saved state as a 0-d or one-element integer array (the caller keeps using that object)
+            "arr": (rng.choice(["0d", "1"]) if np_ok and rng.random() < 0.12 else None)}
 
 
 BAD = ["len0", "len_neg", "len_str", "len_float", "order8", "order10", "order16", "order32", "order6", "order0",
@@ -137,6 +149,8 @@ def generate(seed, tier):
             ops.append({"op": "filters", "mode": rng.choice(["default", "ignore", "always", "once"])})
         elif k == "leak":
             ops.append({"op": "leak", "upto": rng.choice([40, 70, 140, 300]), "every": rng.choice([1, 1, 1, 3])})
+            if rng.random() < 0.15:
+                ops[-1] = {"op": "leak", "upto": 1100, "every": 25}
         else:
             ops.append({"op": k})
     return {}, ops
@@ -195,8 +209,13 @@ class Consumer:
 
     # -- calling the library --------------------------------------------------
     def _call(self, **kw):
+        sd = kw.get("seed")
+        keep = sd.copy() if isinstance(sd, np.ndarray) else None
         with seams.warning_tap() as w:
             out = self.PRBS(**kw)
+        if keep is not None and not np.array_equal(keep, sd):
+            raise Violation("C04/state", f"PRBS changed the seed object it was given: {keep!r} -> {sd!r} (a saved state must "
+                                         f"stay usable)", "state/seed-mutated")
         return out, [x for x in w if issubclass(x.category, UserWarning)]
 
     def _check_bits(self, obj, k, what):
@@ -218,6 +237,8 @@ class Consumer:
         self.order = op["order"]
         s = op["seed"]
         self.state = (np.int64(s) if op.get("np") else s)
+        if op.get("arr") and s is not None:
+            self.state = np.array(s, dtype=np.int64) if op["arr"] == "0d" else np.array([s], dtype=np.int64)
         self.eff_seed, self.zero_class = effective_seed(self.order, s)
         self.ref = RefLFSR(self.order, self.eff_seed)
         self.ref_ckpt = self.eff_seed
@@ -263,7 +284,7 @@ class Consumer:
                                           f"{sum(len(b) for b in self.committed + self.buffer)}, first={first})",
                             f"stream/{'first' if first else 'resume'}")
         try:
-            st_int = int(st)
+            st_int = _as_int(st)
         except Exception:
             raise Violation("C04/state", f"{what}: returned state {st!r} is not an integer", "state/type")
         if st_int != self.ref.state:
@@ -321,8 +342,8 @@ class Consumer:
         exp = self.ref.bits(period)
         if not np.array_equal(bits, exp):
             raise Violation("C04/stream", f"{what}: default-length call differs from reference", "stream/default")
-        if int(out[1]) != self.ref.state:
-            raise Violation("C04/state", f"{what}: state after one period {int(out[1]):#x} != {self.ref.state:#x}",
+        if _as_int(out[1]) != self.ref.state:
+            raise Violation("C04/state", f"{what}: state after one period {_as_int(out[1]):#x} != {self.ref.state:#x}",
                             "state/default")
         if int(bits.sum()) != 1 << (self.order - 1):
             raise Violation("C04/period", f"{what}: {int(bits.sum())} ones in one period", "period/balance")
@@ -427,7 +448,7 @@ class Consumer:
             if not np.array_equal(bits, exp):
                 raise Violation("C04/stream", f"leak/order{self.order}: resumed bits differ from the reference at "
                                               f"timer-stack depth {seams.timer_stack_depth()}", "stream/leak")
-            return (core.array_digest(bits), int(out[1]))
+            return (core.array_digest(bits), _as_int(out[1]))
         return common.leak_sweep(reject, valid, op["upto"], "C04/state", self.rec, op.get("every", 1), "PRBS request")
 
     def filters(self, op):
